@@ -2483,7 +2483,7 @@ func extra5C15(c *Ctx) {
 				inExpr := false
 				if root := enclosingCond(f.Body, call); root != nil {
 					for _, a := range exprGuards(root, call) {
-						if x, eq, isNil := core.IsNilCheck(info, a.Expr); isNil && core.ExprString(x) == rs && (eq != a.Val) {
+						if x, eq, isNil := core.IsNilCheck(info, a.Expr); isNil && core.ExprString(ast.Unparen(x)) == rs && (eq != a.Val) {
 							inExpr = true
 						}
 					}
@@ -2493,7 +2493,7 @@ func extra5C15(c *Ctx) {
 				// same runner under the same lock is a liveness test too
 				rsOpt := strings.TrimSuffix(rs, ".llama") + ".Options"
 				for _, a := range atoms {
-					if x, eq, isNil := core.IsNilCheck(info, a.Expr); isNil && (core.ExprString(x) == rs || core.ExprString(x) == rsOpt) && (eq != a.Val) {
+					if x, eq, isNil := core.IsNilCheck(info, a.Expr); isNil && (core.ExprString(ast.Unparen(x)) == rs || core.ExprString(ast.Unparen(x)) == rsOpt) && (eq != a.Val) {
 						known = true
 						for _, cb := range g.CondBlocks() {
 							if g.Dominates(g.CondLoc(cb.B), h.Loc) && strings.Contains(core.ExprString(cb.Cond), core.ExprString(a.Expr)) {
